@@ -145,6 +145,27 @@ theorem certs_and_keys (v3 : Bool) (ss : List Spec.SigBlock.Signer) :
   · simp [certsOf, toModel, List.flatMap_map]
   · simp [pubkeysOf, toModel]
 
+/-- an archive WITHOUT a signing block (the 16 bytes before the central directory are not the
+    magic): all three flags are False, nothing is recorded, every scheme reports no signers. -/
+theorem no_block_unsigned (sc : Scheme) (pre cdRest mid : List Nat) (hmid : mid.length = 12)
+    (hpre : 24 ≤ pre.length) (hoc32 : pre.length < 2 ^ 32)
+    (hmagic : pre.drop (pre.length - 16) ≠ magic) :
+    parseOuter (plainFile pre cdRest mid) = ⟨some (false, false, false), [], none⟩ ∧
+    parseScheme sc (plainFile pre cdRest mid) = .ok [] :=
+  ⟨parseOuter_plainFile pre cdRest mid hmid hpre hoc32 hmagic,
+   parseScheme_plainFile sc pre cdRest mid hmid hpre hoc32 hmagic⟩
+
+/-- the fuel arguments of the model's loops are never exhausted, for ANY input bytes: each
+    iteration of the digest/signature loop, the certificate loop, the signer loop and the pair walk
+    consumes at least four bytes or fails (so `Err.fuel` is not a behaviour of the model, and the
+    loops terminate within `length + 1` iterations). -/
+theorem fuel_never_exhausted (s : List Nat) (budget : Nat) (v3 : Bool) (sc : Scheme) :
+    parseSeq s ≠ .error .fuel ∧ parseCertsF (s.length + 1) budget s ≠ .error .fuel ∧
+    parseValue v3 s ≠ .error .fuel ∧ (parseOuter s).err ≠ some .fuel ∧
+    parseScheme sc s ≠ .error .fuel :=
+  ⟨parseSeq_fuel_ok s, parseCertsF_fuel_ok _ _ s (by omega), parseValue_fuel_ok v3 s,
+   parseOuter_fuel_ok s, parseScheme_fuel_ok sc s⟩
+
 /-! Non-vacuity: concrete non-trivial objects satisfy the hypotheses. -/
 def exSigner : Spec.SigBlock.Signer :=
   { digests := [(0x0103, [1, 2, 3]), (0x0104, [4, 5])], certs := [[0x30, 0x00], [0x30, 0x01, 0x07]],
@@ -159,6 +180,7 @@ example : (parseOuter (apkFile [7, 7, 7] [(idV31, encodeValue true [exSigner]), 
 example : hasDuplicate (parseOuter (apkFile [7, 7, 7] [(idV31, encodeValue true [exSigner]),
       (0x42726577, [0, 0]), (idV31, [1])] [0, 0] (List.replicate 12 0))) = true := by decide +kernel
 /-- v3.1 present, v3 absent: the v3.1 signers are reported -/
+example : (List.replicate 24 7).drop (24 - 16) ≠ magic := by decide
 example : parseScheme .v31 (apkFile [7, 7, 7] [(0x42726577, [0, 0]), (idV31, encodeValue true [exSigner])]
       [0, 0] (List.replicate 12 0)) = .ok [toModel true exSigner] := by decide +kernel
 
